@@ -40,6 +40,8 @@ def cases(ctx):
 
 
 def words_of(c):
+    if 'words' in c:          # a replayed sub-case
+        return list(c['words'])
     X = c['X']
     Sig = sorted(X['Sigma'])
     ws = gen.all_words(Sig, c['n'] if len(Sig) <= 2 else 2)
@@ -163,7 +165,7 @@ def judge(ctx, c, answers):
         for w in ws:
             la = next(it)
             got = call(dfa_simulate_word, D, w, limit=5)
-            sub = dict(kind=k, X=c['X'], w=w)
+            sub = dict(kind=k, X=c['X'], w=w, words=[w], n=c.get('n', len(w)), scheds=c.get('scheds', []))
             tr = [[q, u] for q, u in got['ok']] if 'ok' in got else None
             err = 'raises %s' % got.get('err') if tr is None else check_dfa_trace(D, w, tr)
             if err:
@@ -178,7 +180,7 @@ def judge(ctx, c, answers):
         for w in ws:
             acc = oracles.nfa_accepts(N, w)
             got = call(nfa_simulate_word, N, w, limit=5)
-            sub = dict(kind=k, X=c['X'], w=w)
+            sub = dict(kind=k, X=c['X'], w=w, words=[w], n=c.get('n', len(w)), scheds=c.get('scheds', []))
             if 'ok' not in got:
                 ctx.violation('nfa-trace', {'case': sub, 'problem': 'raises/hangs: %s' % got.get('err'), 'accepted': acc})
             elif (got['ok'] is None) != (not acc):
@@ -209,7 +211,7 @@ def judge(ctx, c, answers):
                 from gambatools.pda_algorithms import pda_accepts_word
                 says = call(pda_accepts_word, P, w, limit=5).get('ok')
                 got = call(pda_simulate_word, P, w, limit=5)
-                sub = dict(kind=k, X=c['X'], w=w)
+                sub = dict(kind=k, X=c['X'], w=w, words=[w], n=c.get('n', len(w)), scheds=c.get('scheds', []))
                 if 'ok' not in got:
                     # a stack-growing epsilon cycle can make the unbounded path search run forever: documented partial clause
                     if got.get('err') == 'fuel':
@@ -254,7 +256,7 @@ def judge(ctx, c, answers):
             for lm, kind in ((True, 'leftmost'), (False, 'rightmost')):
                 la = next(it)
                 got = call(cfg_derive_word, G, w, kind, limit=5)
-                sub = dict(kind=k, X=c['X'], w=w, type=kind)
+                sub = dict(kind=k, X=c['X'], w=w, type=kind, words=[w], n=c.get('n', len(w)))
                 if 'ok' not in got:
                     ctx.violation('cfg-derivation', {'case': sub, 'problem': 'raises %s %s' % (got.get('err'), got.get('msg'))})
                     continue
